@@ -362,7 +362,9 @@ def run(ctx: Ctx, rs: RuleSet, tier: str):
           k = seen_names.get(nm, 0)
           seen_names[nm] = k + 1
           ok = hasattr(_builtins, nm)
-          rs.check(ok, rule, f'{f.qualname}:{nm}#{k}',
+          # one construct per module and emitted name: where in the module the
+          # name is emitted is an implementation detail
+          rs.check(ok, rule, f'{modname}:{nm}',
                    f'`{nm}` is a builtin' if ok else
                    f'`{nm}` is emitted as a bare name without an import but '
                    'is not a builtin: the generated module raises NameError '
@@ -738,11 +740,19 @@ def run(ctx: Ctx, rs: RuleSet, tier: str):
     if isinstance(a0, ast.Name):
       defs = [s for s in walk_function(f.node) if isinstance(s, ast.Assign) and
               unparse(s.targets[0]) == a0.id]
-      ok = bool(defs) and all(
-          'namer.name_for(' in unparse(d.value) or
-          'namespace.get_new_name(' in unparse(d.value) or
-          'get_new_name(' in unparse(d.value) or
-          unparse(d.value).startswith('code_ir.Name(') for d in defs)
+      def from_allocator(v):
+        return any(isinstance(x, ast.Call) and (
+            (isinstance(x.func, ast.Attribute) and
+             x.func.attr in ('name_for', 'get_new_name')) or
+            (isinstance(x.func, ast.Name) and x.func.id == 'get_new_name'))
+                   for x in ast.walk(v)) or unparse(v).startswith(
+                       'code_ir.Name(')
+
+      ok = bool(defs) and all(from_allocator(d.value) for d in defs)
+    elif a0 is not None:
+      ok = any(isinstance(x, ast.Call) and isinstance(
+          x.func, ast.Attribute) and x.func.attr in ('name_for', 'get_new_name')
+               for x in ast.walk(a0))
     if not ok and f.qualname.endswith(
         'sub_fixture._transform_sub_fixtures.traverse'):
       # user-chosen sub-fixture names: accepted iff the public entry point
